@@ -426,7 +426,7 @@ func (in *inst) post(c *astutil.Cursor) bool {
 		switch {
 		case in.pkgIdent(n.X, "sync"):
 			switch n.Sel.Name {
-			case "WaitGroup", "Mutex", "RWMutex", "Once":
+			case "WaitGroup", "Mutex", "RWMutex", "Once", "Pool":
 				in.used = true
 				c.Replace(vs(n.Sel.Name))
 			default:
